@@ -1,6 +1,7 @@
 package main
 
 import (
+	"sync/atomic"
 	"bufio"
 	"crypto/aes"
 	"crypto/md5"
@@ -96,6 +97,8 @@ func (m *Model) answer(q string) (string, error) {
 // Ask sends one request line and returns the result line, answering oracle queries meanwhile.
 func (m *Model) Ask(req string) (string, error) {
 	m.Requests++
+	atomic.StoreInt32(&wdModelWait, 1)
+	defer func() { atomic.StoreInt32(&wdModelWait, 0); tick() }()
 	if _, err := io.WriteString(m.in, req+"\n"); err != nil {
 		return "", err
 	}
